@@ -1,0 +1,27 @@
+//go:build verif
+
+// Contracts for the slipvc verifier (see /verif/DESIGN.md). Comment-only file.
+
+package clos
+
+// ---------------------------------------------------------------------------
+// C12: CLOS classes.
+
+// A class is merged only from superclasses that exist and are themselves
+// ready (otherwise it stays unfinalised and is merged again later); on every
+// successful merge the initarg and initform tables are rebuilt from scratch,
+// so entries whose source disappeared in a redefinition do not survive.
+//@ func clos.(*StandardClass).mergeSupers
+//@   property C12
+//@   count-stores initArgs initForms
+//@   on-store inherit#3 direct-super-ready: len(now) > 0 ==> (ssc != nil && len(ssc.precedence) > 0)
+//@   on-store initArgs rebuilt-empty: len(now) == 0 && fresh(now)
+//@   on-store initForms rebuilt-empty: len(now) == 0 && fresh(now)
+//@   ensures tables-rebuilt: result0 ==> ($nstore_initArgs == 1 && $nstore_initForms == 1)
+
+// make-instance / shared-initialize: a slot that was filled from a supplied
+// initarg (or from a default initarg) is not overwritten by an initform.
+//@ func clos.(defaultSharedInitializeCaller).Call
+//@   property C12
+//@   on-call Eval#2 initform-only-for-unfilled-slot: !has(nameMap, k)
+//@   on-call Eval#1 default-only-for-unfilled-slot: !has(nameMap, sd.name)
